@@ -601,12 +601,12 @@ theorem foldAdd_count (g : SG) (es : List Edge) (hd : g.directed = true) (hs : S
 /-- the call history "add every edge of the list" -/
 def addOps (es : List Edge) : List Op := es.map fun e => .addEdge e.1 e.2.1 e.2.2
 
-theorem specRun_addOps (g : SG) (es : List Edge) : (specRun g (addOps es)).1 = foldAdd g es := by
+theorem specRun_addOps (m : Nat) (g : SG) (es : List Edge) : (specRun m g (addOps es)).1 = foldAdd g es := by
   induction es generalizing g with
   | nil => rfl
   | cons e es ih =>
     simp only [addOps, List.map_cons, specRun, foldAdd_cons]
-    have : (specStep g (.addEdge e.1 e.2.1 e.2.2)).1 = (g.addEdge e.1 e.2.1 e.2.2).1 := by
+    have : (specStep m g (.addEdge e.1 e.2.1 e.2.2)).1 = (g.addEdge e.1 e.2.1 e.2.2).1 := by
       simp only [specStep]
       cases h : g.addEdge e.1 e.2.1 e.2.2 with
       | mk g' r => cases r <;> rfl
@@ -662,7 +662,6 @@ theorem fromSorted_eq_fold (m c : Nat) (dbg : Bool) (es : List Edge) (s : State)
     refine ⟨rfl, rfl, ?_, rfl⟩
     intro a b; rw [look_replicate_nil]; rfl
   obtain ⟨R2, good2, abs2, _, sp2⟩ := run_refines (good_withNodes true m c dbg n) h0 (addOps es)
-    (fits_addOps _ _ es)
   rw [specRun_addOps] at abs2
   exact canonical good good2 habs abs2
     ⟨sp.1.trans sp2.1.symm, sp.2.1.trans sp2.2.1.symm, sp.2.2.1.trans sp2.2.2.1.symm, sp.2.2.2.trans sp2.2.2.2.symm⟩
